@@ -275,7 +275,8 @@ void StringDictionaryFMINDEX::build_ssa(uchar *text, size_t len,
   fm_index->build_index();
 
   if (BWTsampling > 0) {
-    uint samples = (len + 1) / BWTsampling + 1;
+    // text positions 0..len that are multiples of BWTsampling
+    uint samples = len / BWTsampling + 1;
 
     for (uint i = 0; i < samples; i++)
       fm_index->suff_sample[i] = separators->rank1(fm_index->suff_sample[i]);
